@@ -178,6 +178,35 @@ def pagination_scenario(rng, n, quick):
     return ops
 
 
+def scenario_bulk(rng, quick, n, mode):
+    """C40: the same kind of corpus ingested through a bulk path; the ordinary contracts (frame table, payloads,
+    embeddings, timeline, recall, soundness, exact k-NN) must hold exactly as for plain puts + commit."""
+    docs = make_corpus(rng, n, long_frac=0.25)
+    for d in docs:
+        d.pop("acl", None)
+    ops = [{"op": "create"}]
+    if mode == "plain":
+        ops += docs + [{"op": "commit"}]
+    elif mode == "batch":
+        ops.append({"op": "begin_batch", "skip_sync": rng.random() < 0.7, "no_auto": rng.random() < 0.7, "level": rng.choice([1, 3, 9]),
+                    "presize": rng.choice([0, 0, 262144])})
+        ops += docs + [{"op": "end_batch"}, {"op": "commit"}]
+    else:
+        cut = max(1, n // 2)
+        ops.append({"op": "begin_batch", "skip_sync": True, "no_auto": True})
+        ops += docs[:cut] + [{"op": "commit_skip"}] + docs[cut:] + [{"op": "end_batch"}, {"op": "commit_skip"}, {"op": "finalize"}]
+        if mode == "skip+commit":
+            ops.append({"op": "commit"})
+    b, qid = battery(rng, 0, n, quick, light=True)
+    reads = [{"op": "timeline"}, {"op": "vecset"}] + b
+    ops += reads + [{"op": "close"}, {"op": "open", "full": True}] + [dict(q) for q in reads] + [{"op": "close"}, {"op": "verify"}]
+    return ops
+
+
+def is_bulk(evs):
+    return any(e.get("ev") in ("begin_batch", "commit_skip", "finalize") for e in evs)
+
+
 def engine(tier):
     quick = tier == "quick"
     rng = random.Random(seed() * 3571 + (5 if quick else 6))
@@ -185,6 +214,8 @@ def engine(tier):
     sizes = [6, 14, 30] if quick else [4, 8, 14, 24, 40, 60, 90, 120] * 3
     for n in sizes:
         scs.append({"id": len(scs) + 1, "ops": scenario(rng, quick, n)})
+    for mode in (["plain", "batch", "skip", "skip+commit"] if quick else ["plain", "batch", "batch", "batch", "skip", "skip", "skip+commit", "skip+commit"] * 2):
+        scs.append({"id": len(scs) + 1, "ops": scenario_bulk(rng, quick, rng.choice([5, 9]) if quick else rng.choice([5, 12, 30, 60]), mode)})
     wd, paths = eng_core.run_scenarios(scs, "qry", jobs=min(12, len(scs)))
     accepted, events, diags, devs = eng_core.validate(paths, wd, mk_cfg=lambda dbg: eng_core.trace_cfg(dbg, defects=AS_BUILT), jobs=min(10, len(scs)), max_diag=40)
     nq = sum(1 for s in scs for o in s["ops"] if o["op"] in ("search", "vsearch", "vtext", "adaptive", "ask"))
@@ -202,6 +233,9 @@ def run_prop(prop, tier, out: Outcome):
         for (li, name) in d["mismatches"]:
             ev = evs[li - 1] if 0 < li <= len(evs) else {}
             owners = {OWNER.get(name)} | set(ALSO.get(name, []))
+            if is_bulk(evs[:li]):
+                # a bulk-ingested memory that answers differently from what the specification (= plain puts) says
+                owners = {"C40"}
             if prop in owners:
                 mine.append((li, name, ev))
         if d.get("undiagnosed") and prop == "C10":
@@ -221,7 +255,7 @@ def run_prop(prop, tier, out: Outcome):
                         % (li - 1, ev.get("ev"), json.dumps({k: v for k, v in a.items() if k not in ("op",)})[:200], name, json.dumps(ev.get("res"))[:200]),
                         {"engine": "query", "scenario": [e["args"] for e in evs[:li] if e.get("ev") not in ("reset", "crash", "corrupt")]})
     for d in r["deviations"]:
-        if DEV_OWNER.get(d["deviation"]) == prop:
+        if (DEV_OWNER.get(d["deviation"]) == prop and not is_bulk(d["events"])) or (prop == "C40" and is_bulk(d["events"])):
             evs = d["events"]
             last = evs[-1] if evs else {}
             out.diverge({"engine": "query", "kind": "deviation", "deviation": d["deviation"], "call": last.get("ev", "?")},
